@@ -83,7 +83,7 @@ class ApplicationHelp(AbstractHelp):
         if command.config.is_hidden():
             return
 
-        description = command.config.description
+        description = command.config.description or ""
         name = "<c1>{}</c1>".format(command.name)
 
         layout.add(LabeledParagraph(name, description))
